@@ -3,8 +3,8 @@
    implies the postcondition of C01": proved for the model, which follows the repaired main.rs
    (`fix: exit with a non-zero status ...`; before it a run with per-file errors exited 0, C10-KF1). *)
 From Coq Require Import NArith ZArith List Bool Lia.
-From SyModel Require Import Engine.
-From SyProofs Require Import Engine_proofs.
+From SyModel Require Import Engine EngineFaults.
+From SyProofs Require Import Engine_proofs EngineFaults_proofs.
 Import ListNotations.
 
 (* failure is visible: whenever some planned operation did not complete, the exit status is non-zero,
@@ -33,6 +33,38 @@ Theorem C10_failed_task_changes_nothing : forall c now ts m errs evs t x,
   exec_all c now m (t :: ts) errs evs = exec_all c now m ts ((t_path t, t_action t, x) :: errs) evs.
 Proof. intros c now ts m errs evs t x E. cbn [exec_all]. rewrite E. reflexivity. Qed.
 Print Assumptions C10_failed_task_changes_nothing.
+
+(* "files not affected by the fault still end up correct": Model/EngineFaults.v lets the transfer of ANY set of source entries fail
+   for reasons outside the model (an errno at some system call: [flt]), leaving anything at the failing file's own path ([junk]:
+   the old file, a partial one, nothing).  Whatever fails -- injected or for the reasons Engine.v knows -- every selected entry
+   for which no error is recorded satisfies the C01 postcondition, and with no fault injected the run is Engine.run *)
+Theorem C10_unaffected_entries_correct : forall flt junk refuse ds c now U keep src dst,
+  src_wf src -> c_dry_run c = false -> dst [] = None ->
+  (forall e, In e src -> se_is_dir e = true -> forall cc s t, dst (se_path e) <> Some (File cc s t)) ->
+  (forall e, In e src -> se_is_dir e = false -> dst (se_path e) <> Some Dir) ->
+  let r := run_f flt junk refuse ds c now U keep src dst in
+  r_refused r = false ->
+  forall e, In e src -> (forall a x, ~ In (se_path e, a, x) (r_errors r)) -> post c ds now dst (r_fs r) e.
+Proof. exact run_f_post. Qed.
+Print Assumptions C10_unaffected_entries_correct.
+
+Theorem C10_no_fault_is_the_engine : forall junk refuse ds c now U keep src dst,
+  run_f (fun _ => None) junk refuse ds c now U keep src dst = run refuse ds c now U keep src dst.
+Proof. exact run_f_no_faults. Qed.
+Print Assumptions C10_no_fault_is_the_engine.
+
+(* two of three files hit by injected faults (one left truncated, one left as it was): the third is transferred, both failures are
+   recorded, the exit status is 1 *)
+Example C10_injected_faults :
+  let c := mk_cfg false false 50 false false false false 100 100 in
+  let src := [mk_sentry [1%N] false 5 1000%Z 7 false; mk_sentry [2%N] false 6 1000%Z 8 false; mk_sentry [3%N] false 4 1000%Z 9 false] in
+  let dst : fs := fun p => if peqb p [3%N] then Some (File 1 1 1%Z) else None in
+  let flt := fun p => if peqb p [1%N] then Some E_NoEnt else if peqb p [3%N] then Some E_NoEnt else None in
+  let junk := fun p => if peqb p [1%N] then Some (File 0 0 9%Z) else dst p in
+  let r := run_f flt junk (fun _ _ _ => false) (fun _ => (0%N, 0%Z)) c 9%Z [[3%N]] [] src dst in
+  length (r_errors r) = 2 /\ r_fs r [2%N] = Some (File 8 6 1000%Z) /\ r_fs r [1%N] = Some (File 0 0 9%Z) /\ r_fs r [3%N] = Some (File 1 1 1%Z) /\
+  exit_status c r = 1%Z.
+Proof. vm_compute. repeat split. Qed.
 
 (* Known finding C10-KF1: type conflicts the planner does not see -- a regular file where the source has a
    directory (exists() is all that is tested), or a directory whose stat size equals the source file's size
